@@ -262,10 +262,18 @@ def check_model(case):
             proj = A @ beta
             err = np.abs(pred_tr[ind] - proj).max()
             good = len(Xl) > d + 1 and np.linalg.cond(A) < 1e6
-            # a design carrying an offset of 1e3..1e5 is full rank but ill conditioned (1e6..1e10): an SVD solve in double precision still
-            # gives the fitted values to about cond * eps
-            ltol = (1e-6 if not case.get("xoffset") else 1e-4) * scale
-            if good or len(Xl) <= d + 1:
+            ltol = 1e-6 * scale
+            skip = False
+            if case.get("xoffset"):
+                # the documented design [X, 1] carrying an offset of 1e3..1e5 is full rank but ill conditioned (about offset**2 / spread):
+                # a backward-stable solve in double precision gives the fitted values to about cond * eps * |y| (numpy's own lstsq on the
+                # raw design deviates as much); leaves whose raw design is beyond that budget are not judged
+                cond_raw = float(np.linalg.cond(np.hstack([Xl, np.ones((len(Xl), 1))])))
+                budget = 1000 * np.finfo(np.float64).eps * cond_raw
+                skip = not (budget < 1e-2)
+                ltol = max(1e-6, budget) * scale
+                good = good and not skip
+            if (good or len(Xl) <= d + 1) and not skip:
                 # projection of y on span[X,1] is unique; compare on training rows
                 require(err <= ltol, "mselin:leaf-fit", "leaf %d (%d rows): max deviation from the least-squares fit %.3g" % (leaf, len(Xl), err), facts)
             if good:
